@@ -165,6 +165,62 @@ theorem region_sections_exact {len : Int} {ops : List Op} {r : Rec} (hrun : run 
     rw [ownSection_eq_spec a g (inv.ok g hg), hs] at this
     exact this
 
+/-- a section handed down (or none yet) that is `cross` exactly for genes crossing the origin -/
+def GivenOK (g : Gene) (given : Option Section) : Prop :=
+  ∀ s0, given = some s0 → (s0 = .cross ↔ crosses g.loc = true)
+
+theorem chooseSection_none_cases (loc : Loc) (g : Gene) :
+    (crosses g.loc = true → chooseSection loc g none = some .cross) ∧
+    (crosses g.loc = false → chooseSection loc g none = none ∨ chooseSection loc g none = some .post
+      ∨ chooseSection loc g none = some .pre) := by
+  constructor
+  · intro hx; simp [chooseSection, hx]
+  · intro hx
+    simp only [chooseSection, hx, Bool.or_false, Bool.false_eq_true, if_false]
+    by_cases h1 : decide (loc.parts.length > 1) = true
+    · simp only [h1, if_true, Bool.true_and]
+      generalize (match loc.parts with | _ :: p1 :: _ => containedBy g.loc (.simple p1) | _ => false) = b
+      cases b <;> simp
+    · simp [h1]
+
+theorem chooseSection_ok (loc : Loc) (g : Gene) (given : Option Section) (h : GivenOK g given) :
+    GivenOK g (chooseSection loc g given) ∧ ((chooseSection loc g given).getD .post = .cross ↔ crosses g.loc = true) := by
+  cases given with
+  | some s0 => simp only [chooseSection, Option.getD_some]; exact ⟨h, h s0 rfl⟩
+  | none =>
+    obtain ⟨c1, c2⟩ := chooseSection_none_cases loc g
+    cases hx : crosses g.loc
+    · rcases c2 hx with e | e | e <;> rw [e] <;> refine ⟨fun s0 e' => ?_, by simp⟩
+      · cases e'
+      · injection e' with e'; subst e'; simp [hx]
+      · injection e' with e'; subst e'; simp [hx]
+    · rw [c1 hx]
+      exact ⟨fun s0 e' => by injection e' with e'; subst e'; simp [hx], by simp⟩
+
+/-- wherever `add_cds` takes a gene, it is filed under `cross` exactly when it crosses the origin -/
+theorem downNodes_cross (g : Gene) : ∀ (n : Nat) (given : Option Section) (a : AreaT) (d : AreaT × Section), a.size ≤ n →
+    GivenOK g given → d ∈ downNodes g given a → (d.2 = .cross ↔ crosses g.loc = true)
+  | 0, _, a, _, hn, _, _ => by cases a; simp [AreaT.size] at hn
+  | n + 1, given, a, d, hn, hg, hd => by
+    obtain ⟨h1, h2⟩ := chooseSection_ok a.loc g given hg
+    rcases mem_downNodes.1 hd with rfl | ⟨k, hk, _, hdk⟩
+    · exact h2
+    · have := size_kid hk
+      exact downNodes_cross g n _ k d (by omega) h1 hdk
+
+/-- whatever `add_cds` reaches is the collection itself or a child of one of its nodes -/
+theorem down_root_or_kid (g : Gene) : ∀ (n : Nat) (given : Option Section) (b : AreaT) (d : AreaT × Section), b.size ≤ n →
+    d ∈ downNodes g given b → d.1 = b ∨ ∃ m ∈ nodes b, d.1 ∈ m.kids
+  | 0, _, b, _, hn, _ => by cases b; simp [AreaT.size] at hn
+  | n + 1, given, b, d, hn, hd => by
+    rcases mem_downNodes.1 hd with rfl | ⟨k, hk, _, hdk⟩
+    · exact Or.inl rfl
+    · right
+      have := size_kid hk
+      rcases down_root_or_kid g n _ k d (by omega) hdk with e | ⟨m, hm, hkm⟩
+      · exact ⟨b, nodes_self b, by rw [e]; exact hk⟩
+      · exact ⟨m, nodes_kid hk m hm, hkm⟩
+
 /-- every gene a collection lists sits in at least one of its sections, and the sections hold nothing else -/
 theorem sections_cover {len : Int} {ops : List Op} {r : Rec} (hrun : run len ops = .ok r) (hok : ∀ op ∈ ops, OpOK op)
     (aid gid : Nat) : gid ∈ r.children aid ↔ ∃ s, gid ∈ r.section aid s := by
